@@ -13,7 +13,8 @@ SIZES = {"quick": 8000, "thorough": 250000}
 BATCH = 4000
 RULE = ("sequential: one resource with 1-3 throttling rules (30% of the cases two or three: identical, one field different, independent), 45% of "
         "the cases reload the rule list in the middle of the traffic, one thing changed at a time (identical list, no-op, MaxQueueingTimeMs, "
-        "threshold, StatIntervalInMs incl. 0<->1000, rule added / removed / order swapped; a rule of another resource comes or goes so that the "
+        "threshold, StatIntervalInMs incl. 0<->1000, rule added / removed / order swapped; 20% of the reloads go through an empty rule set "
+        "(ClearRules, ClearRulesOfResource, empty load) and back to the same or a changed list; a rule of another resource comes or goes so that the "
         "reload is a real one) followed by callers at the same instant and callers one to two intervals apart; per rule (threshold from integers, fractions, 0, -0, subnormal, huge, +Inf and values that put "
         "b*I/T next to an integer; statIntervalMs incl. 0 and 2^32-1; maxQueueingTimeMs incl. 0, k*interval and k*interval+-1), 10-60 "
         "requests with batch in {0,1,2,3,floor(T),floor(T)+1,big}, arrival times non-decreasing with steps aimed at the decision boundaries "
@@ -216,7 +217,27 @@ def _gen_seq(rng, cid, nmin, nmax, vary, pick_rule):
             k = rng.random()
             i = rng.randrange(len(rules))
             real = True
-            if k < 0.22:
+            if rng.random() < 0.20:
+                # through an empty rule set and back: ClearRules / ClearRulesOfResource / load of an empty list, a few unthrottled
+                # requests, then the SAME list again (same other-resource rule: DeepEqual to what was loaded before) or a changed one
+                how = rng.choice(["clear", "clear", "clearres", "empty", "empty-other"])
+                ops.append({"clear": "clear", "clearres": "clearres", "empty": "load", "empty-other": fmt_rules([], other) if other else "load"}[how])
+                ctls = []
+                for _ in range(rng.choice([0, 0, 1, 2])):
+                    ops.append("req 1")
+                if rng.random() < 0.35:
+                    f = rng.choice(["mq", "T", "I"])
+                    rules = rules[:i] + [vary(rng, rules[i], f)] + rules[i + 1:]
+                    how += "+" + f
+                ops.append(fmt_rules(rules, other))
+                ctls = reload_py(ctls, rules)
+                kinds.append(how)
+                burst = rng.choice([2, 3, 4])
+                k = 2.0
+                real = False
+            if k >= 2.0:
+                pass
+            elif k < 0.22:
                 kind = "same"
             elif k < 0.27:
                 kind, real = "noop", False
@@ -240,12 +261,13 @@ def _gen_seq(rng, cid, nmin, nmax, vary, pick_rule):
                 rules = rules[::-1]
             else:
                 kind = "same"
-            if real:
-                other = 1 - other if other in (0, 1) else 0      # another resource's rule comes or goes: the reload is a real one
-            ops.append(fmt_rules(rules, other))
-            ctls = reload_py(ctls, rules)
-            kinds.append(kind)
-            burst = rng.choice([2, 3, 4])
+            if k < 2.0:
+                if real:
+                    other = 1 - other if other in (0, 1) else 0      # another resource's rule comes or goes: the reload is a real one
+                ops.append(fmt_rules(rules, other))
+                ctls = reload_py(ctls, rules)
+                kinds.append(kind)
+                burst = rng.choice([2, 3, 4])
         T, I_ms, mq = rules[rng.randrange(len(rules))]
         I = (I_ms or 1000) * MS
         maxq = mq * MS
@@ -389,6 +411,8 @@ def corpus():
     import glob, os
     from vlib.core import ROOT
     res = []
+    if os.environ.get("C10_NO_CORPUS"):      # to see what the generator alone finds (used when validating seeded changes)
+        return res
     for p in sorted(glob.glob(os.path.join(ROOT, "corpus", PROP, "*.ops"))):
         ops = [l.rstrip("\n") for l in open(p) if l.strip() and not l.startswith("#") and not l.startswith("case ")]
         res.append(Case(os.path.basename(p), ops, tags=("corpus",)))
@@ -420,7 +444,7 @@ def nontrivial(case, impl):
         if op.startswith("req "):
             t = r.split()
             kinds.append("?" if not t else "b" if t[-1] == "block" else "w" if any(x.startswith("S") for x in t) else "p")
-        elif op.startswith("load "):
+        elif op.startswith("load") or op.startswith("clear"):
             loads += 1
             kinds.append("R")
         elif op.startswith("sched"):
@@ -432,7 +456,7 @@ def nontrivial(case, impl):
             # a reload in the middle of the traffic with queueing or rejections after it
             after = s.split("R", 2)[-1]
             if "R" in s[1:] and ("w" in after or "b" in after):
-                return hash((tuple(o for o in case.ops if o.startswith("load ")), s))
+                return hash((tuple(o for o in case.ops if o.startswith("load") or o.startswith("clear")), s))
             return None
         # an idle-path pass after something was queued, a wait and a block
         if "w" in s and "b" in s and "p" in s.lstrip("Rp"):
